@@ -6,5 +6,5 @@ export CARGO_NET_OFFLINE=true
 mkdir -p build/logs coq/gen
 python3 lib/gen_all.py || echo "setup: translators reported a problem (checks will report it)"
 ( cd coq && coq_makefile -f _CoqProject -o Makefile >/dev/null && timeout 3000 make -j16 > ../build/logs/setup-coq.log 2>&1; echo "setup: coq make exit $?" )
-( cd harness && RUSTFLAGS="--cfg sophia_verif -Awarnings" CARGO_TARGET_DIR=../build/target timeout 3000 cargo build --offline --bins > ../build/logs/setup-cargo.log 2>&1; echo "setup: cargo build exit $?" )
+( cd harness && RUSTFLAGS="--cfg sophia_verif -Awarnings" CARGO_TARGET_DIR=../build/target timeout 3000 cargo build --offline --bins --keep-going > ../build/logs/setup-cargo.log 2>&1; echo "setup: cargo build exit $?" )
 exit 0
